@@ -53,6 +53,7 @@ class ScriptTransport:
         self.trace = trace
         self.shared = {"reconnects": 0, "pos": 0, "silent": False}
         self.table = REPLY
+        self.wait_s = 0.0
         self.dead = False
 
     def _t(self) -> float:
@@ -81,6 +82,18 @@ class ScriptTransport:
             await asyncio.sleep(timeout)
             raise TimeoutError("script: silence")
         ev = self.script[self.shared["pos"]]
+        if ev == "w":
+            # the ECU is silent for wait_s seconds (however often it is polled meanwhile), then the next event arrives
+            t0 = self.shared.setdefault("w_since", self._t())
+            left = t0 + self.wait_s - self._t()
+            if timeout is not None and timeout < left:
+                self.trace.append(("read:T", self._t()))
+                await asyncio.sleep(timeout)
+                raise TimeoutError("script: quiet")
+            await asyncio.sleep(max(0.0, left))
+            self.shared.pop("w_since", None)
+            self.shared["pos"] += 1
+            ev = self.script[self.shared["pos"]]
         self.shared["pos"] += 1
         self.trace.append((f"read:{ev}", self._t()))
         if ev == "T":
@@ -118,7 +131,7 @@ class ScriptTransport:
         return new
 
 
-def model(script: str, max_retry: int, timeout: float) -> dict[str, Any]:
+def model(script: str, max_retry: int, timeout: float, wait_s: float = 0.0) -> dict[str, Any]:
     """Reference machine. Returns outcome kind/value, tx count, reconnect count, abstain flag, time bound."""
     ev = list(script)
     pos = 0
@@ -173,6 +186,11 @@ def model(script: str, max_retry: int, timeout: float) -> dict[str, Any]:
         again = False
         while True:
             e = nxt()
+            if e == "w":  # wait_s seconds of silence (below the limit by construction), then the next event
+                quiet += wait_s
+                bound += wait_s
+                e = nxt()
+                quiet = 0.0
             if e == "T":
                 quiet += 0.5
                 bound += 0.5
@@ -208,7 +226,7 @@ def model(script: str, max_retry: int, timeout: float) -> dict[str, Any]:
 
 
 def run_real(script: str, client_retry: int, client_timeout: float, cfg_retry: int | None, cfg_timeout: float | None,
-             max_virtual: float = 5e4, raw: bool = False, dsc: bool = False) -> dict[str, Any]:
+             max_virtual: float = 5e4, raw: bool = False, dsc: bool = False, wait_s: float = 0.0) -> dict[str, Any]:
     from gallia.services.uds.core import service
     from gallia.services.uds.core.client import UDSClient, UDSRequestConfig
 
@@ -217,6 +235,7 @@ def run_real(script: str, client_retry: int, client_timeout: float, cfg_retry: i
 
     async def go() -> Any:
         tr = ScriptTransport(script, trace)
+        tr.wait_s = wait_s
         box["tr"] = tr
         cl = UDSClient(tr, timeout=client_timeout, max_retry=client_retry)  # type: ignore[arg-type]
         cfg = None
@@ -248,9 +267,9 @@ def check(case: dict[str, Any]) -> list[tuple[str, str]]:
     cfr, cft = case.get("cfg_retry"), case.get("cfg_timeout")
     eff_retry = cfr if cfr is not None else cr
     eff_timeout = cft if cft is not None else ct
-    m = model(script, eff_retry, eff_timeout)
+    m = model(script, eff_retry, eff_timeout, float(case.get("wait_s") or 0.0))
     lim = 3 * m["bound"] + 3 * max(eff_timeout, 20.0) * (eff_retry + 1) + 10
-    r = run_real(script, cr, ct, cfr, cft, max_virtual=2 * lim + 100, raw=bool(case.get("raw")), dsc=bool(case.get("dsc")))
+    r = run_real(script, cr, ct, cfr, cft, max_virtual=2 * lim + 100, raw=bool(case.get("raw")), dsc=bool(case.get("dsc")), wait_s=float(case.get("wait_s") or 0.0))
     out: list[tuple[str, str]] = []
     desc = f"script={_sd(case)} max_retry={cr}/{cfr} timeout={ct}/{cft}" + (" via send_raw" if case.get("raw") else "") + (" [10 83]" if case.get("dsc") else "")
     tx = sum(1 for k, _ in r["trace"] if k == "write")
@@ -377,6 +396,8 @@ def _expand_long(spec: list[Any]) -> str:
         return "S"
     if kind == "pend-quiet-final":
         return "P" + "T" * spec[1] + spec[2]
+    if kind == "pend-wait":  # a pending, spec[1] seconds of silence whatever the polling rhythm, then the final reply
+        return "Pw" + spec[2]
     if kind == "pend-gaps":  # several pendings, each followed by a silence shorter than the limit; the silences add up to more
         return "P" + ("T" * spec[1] + "P") * spec[2] + "T" * spec[1] + spec[3]
     raise AssertionError(kind)
@@ -415,7 +436,7 @@ def run_shard(spec: dict[str, Any], seed: int) -> Collector:
                  sample={**case, "reference": {k: (v.hex() if isinstance(v, bytes) else v) for k, v in
                                                 model(case["script"] if not case.get("long") else _expand_long(case["long"]),
                                                       case.get("cfg_retry") if case.get("cfg_retry") is not None else case["client_retry"],
-                                                      case.get("cfg_timeout") or case["client_timeout"]).items()}})
+                                                      case.get("cfg_timeout") or case["client_timeout"], float(case.get("wait_s") or 0.0)).items()}})
         for b, m in res:
             col.violation(b, case, m)
 
@@ -455,6 +476,10 @@ def run_shard(spec: dict[str, Any], seed: int) -> Collector:
                 for k in sorted({1, 39, 40, 41, lim - 1, lim, lim + 1, 45, 59, 60}):
                     for fin in "FN":
                         body({"script": "", "long": ["pend-quiet-final", k, fin], "client_retry": mr, "client_timeout": ct, "cfg_retry": None, "cfg_timeout": cft})
+                # the silence limit is a time (max(timeout, 20 s)), not a number of polls: short request timeouts do not shorten it
+                for w_ in (3.0, 11.0, 19.0):
+                    for ct_ in (0.1, 0.3, ct):
+                        body({"script": "", "long": ["pend-wait", w_, "F"], "wait_s": w_, "client_retry": mr, "client_timeout": ct_, "cfg_retry": None, "cfg_timeout": None})
                 # every single silence stays below the limit, their sum does not: each pending starts a new wait
                 for gap, cnt in ((lim // 2 + 1, 1), (lim // 3 + 1, 2), (lim - 1, 3), (7, 9)):
                     for fin in "FN":
